@@ -94,6 +94,32 @@ def hist_rewrite(t):
     return t
 
 
+def default_metric_rules(r, pre=""):
+    """The default metric chosen for an input (also run for dependent properties: clustering, plots)."""
+    rep = r.rep
+    compare_function(r, pre + "C05-DT", D + "get_default_metric_for_input_data", SPEC, "default metric: paired CDR3 Levenshtein with both CDR3 columns, alpha / beta with one, plain Levenshtein otherwise",
+                     eq=Equiv(rewrites=std_rewrites()), key="default metric table")
+    for cname, (chain, cdr) in SCOPES.items():
+        cq = f"pyrepseq.metric.tcr_metric.tcr_levenshtein.{cname}"
+        ci = r.P.cls(cq)
+        got = []
+        for attr in ("_chain_scope", "_cdr_scope"):
+            _, val = r.P.find_class_attr(cq, attr)
+            got.append(ast.unparse(val).split(".")[-1] if val is not None else None)
+        rep.ob(pre + "C05-DT", cq, got == [chain, cdr], f"{cname} compares the {chain.lower()} CDR3 loop(s) only", f"{r.P.modules[ci.module].relpath}:{ci.node.lineno}", expected=f"{chain}, {cdr}", found=str(got), key=f"scope {cname}")
+    rep.floor(pre + "C05-DT", 4)
+
+
+def downsample_rule(r, rule):
+    """downsample (shared with C17)."""
+    s2 = r.A.summary(D + "downsample")
+    r.rep.analysed(D + "downsample")
+    sp2 = r.A.summarize_source(C17_SPEC, "downsample", "pyrepseq.distance")
+    check_equiv(r.rep, rule, D + "downsample", "down-sampling keeps the object when short enough, else draws exactly maxseqs elements without replacement", subst(s2.ret, canon_params(s2)),
+                subst(sp2.ret, canon_params(sp2)), where_of(r.P, s2.func, s2.func.node), eq=c17_equiv(c17_vec), key="downsample")
+    r.rep.floor(rule, 1)
+
+
 def run(r):
     rep = r.rep
     rep.explanation = "Every return path of pcDelta, the default-metric table, downsample and the background loader were normalised and compared with the specification; the shipped table's index was read."
@@ -133,22 +159,8 @@ def run(r):
             ok = eq.leaf_eq(a0, b)
             rep.ob("C05-RF", D + "pcDelta", ok, "the pseudocount form reduces to counts / total at pseudocount = 0", where_of(r.P, s.func, s.func.node), expected=eq.last[1] if eq.last else "", found=eq.last[0] if eq.last else "", key=f"agreement at c=0 #{n}")
     rep.require(n >= 1 or pipe_verdict is None, "C05-RF: no pair of normalised leaves to compare at pseudocount = 0")
-    # default metric table
-    compare_function(r, "C05-DT", D + "get_default_metric_for_input_data", SPEC, "default metric: paired CDR3 Levenshtein with both CDR3 columns, alpha / beta with one, plain Levenshtein otherwise",
-                     eq=Equiv(rewrites=std_rewrites()), key="default metric table")
-    for cname, (chain, cdr) in SCOPES.items():
-        cq = f"pyrepseq.metric.tcr_metric.tcr_levenshtein.{cname}"
-        ci = r.P.cls(cq)
-        got = []
-        for attr in ("_chain_scope", "_cdr_scope"):
-            _, val = r.P.find_class_attr(cq, attr)
-            got.append(ast.unparse(val).split(".")[-1] if val is not None else None)
-        rep.ob("C05-DT", cq, got == [chain, cdr], f"{cname} compares the {chain.lower()} CDR3 loop(s) only", f"{r.P.modules[ci.module].relpath}:{ci.node.lineno}", expected=f"{chain}, {cdr}", found=str(got), key=f"scope {cname}")
-    # downsample (shared with C17)
-    s2 = r.A.summary(D + "downsample")
-    sp2 = r.A.summarize_source(C17_SPEC, "downsample", "pyrepseq.distance")
-    check_equiv(rep, "C05-DS", D + "downsample", "down-sampling keeps the object when short enough, else draws exactly maxseqs elements without replacement", subst(s2.ret, canon_params(s2)),
-                subst(sp2.ret, canon_params(sp2)), where_of(r.P, s2.func, s2.func.node), eq=c17_equiv(c17_vec), key="downsample")
+    default_metric_rules(r)
+    downsample_rule(r, "C05-DS")
     # background bins
     compare_function(r, "C05-BG", D + "load_pcDelta_background", SPEC, "bin edges = index values of the bundled table followed by last + 1", eq=Equiv(rewrites=std_rewrites() + [edge_list], modelled={"pandas.read_csv", "os.path.join", "os.path.dirname", "numpy.append"}), key="background bins")
     check_background(rep, "C05-BG", r.P.root)
